@@ -385,12 +385,51 @@ def removal_link_cases(ctx, n, extra=()):
                           f"and the molecule carries {extra_} that they do not give (atoms equal: {exp[0] == obs[0]})", {'removal_links': item})
 
 
+def self_veto_cases(ctx, n, extra=()):
+    """a link whose own result vetoes its next match (a non-edge on the bond it makes, or a pattern on the attribute it
+    replaces): the matches are applied one after the other in residue order, each judged on the molecule as the earlier
+    ones left it"""
+    rng = ctx.rng
+    todo = list(extra) + [{'kind': rng.choice(['non_edge', 'pattern']), 'nres': rng.randint(3, 8)} for _ in range(n)]
+    for case in todo:
+        base = ['[ moleculetype ]', 'A 1', '[ atoms ]', '1 P1 1 A BB 1 0.0 72', '2 C1 1 A SC 2 0.0 36', '[ bonds ]', 'BB SC 1 0.3 1000']
+        if case['kind'] == 'non_edge':
+            link = ['[ link ]', 'resname "A"', '[ bonds ]', 'BB +BB 1 0.35 1250', '[ non-edges ]', 'BB -BB']
+        else:
+            link = ['[ link ]', 'resname "A"', '[ atoms ]', '+BB {"replace": {"atype": "Q1"}}', '[ bonds ]', 'BB +BB 1 0.35 1250',
+                    '[ patterns ]', 'BB {"atype": "P1"} +BB']
+        text = '\n'.join(base + link) + '\n'
+        n_ = case['nres']
+        g = {'nres': n_, 'shape': 'path', 'resnames': ['A'] * n_, 'edges': [(i, i + 1) for i in range(n_ - 1)], 'r0': 1,
+             'keys': list(range(n_)), 'order': list(range(n_)), 'edge_order': list(range(n_ - 1)), 'flip': [False] * (n_ - 1)}
+        out = ffgen.run_pipeline(text, g)
+        ctx.case(('self_veto', case['kind'], n_), nontrivial=True, sample=case)
+        ctx.feature('link_vetoed_by_its_own_earlier_match_' + case['kind'])
+        if 'error' in out:
+            ctx.violation('spec', f"the pipeline failed on a self-vetoing link: {out['error']}", {'self_veto': case})
+            continue
+        bb = {a['resid']: a['key'] for a in out['links']['atoms'] if a['name'] == 'BB'}
+        want, prev_applied = [], False
+        for r in range(1, n_):
+            applies = not prev_applied       # the match (r, r+1) is vetoed exactly if (r-1, r) was applied
+            if applies:
+                want.append((bb[r], bb[r + 1]))
+            prev_applied = applies
+        got = sorted(tuple(x['atoms']) for x in out['links']['inters'].get('bonds', []) if tuple(x['atoms']) in {(bb[r], bb[r + 1]) for r in range(1, n_)})
+        if got != sorted(want):
+            ident = {v: k for k, v in bb.items()}
+            ctx.violation('spec', f"C02 fails on the implementation: link 'BB +BB' vetoed by {'the edge BB -BB' if case['kind'] == 'non_edge' else 'the type it gives +BB'} "
+                          f"on A:{n_}: applied between residues {[(ident[a], ident[b]) for a, b in got]}, matches judged one after the other give "
+                          f"{[(ident[a], ident[b]) for a, b in sorted(want)]}", {'self_veto': case})
+
+
 def run(ctx):
     ctx.correspondences += ['MapToMolecule + ApplyLinks vs model/Links.v (interactions per section, replaced attributes, edges)',
                             'implementation judged directly (soundness, next-residue completeness, chain end)',
                             'dangling .itp interactions through gen_params']
     rng = ctx.rng
     removal_link_cases(ctx, ctx.n(10, 100))
+    self_veto_cases(ctx, ctx.n(8, 60))
     cases = [(c['ff'], c['graph']) for _, c in core.corpus_cases('C02')]
     for _ in range(ctx.n(160, 1600)):
         if rng.random() < 0.1:
@@ -500,6 +539,11 @@ def search(ctx):
 
 def replay(ctx, data):
     print(json.dumps(data, indent=1, default=str)[:3000])
+    if 'self_veto' in data:
+        before = len(ctx.violations)
+        self_veto_cases(ctx, 0, extra=[data['self_veto']])
+        print('replay:', ctx.violations[-1]['what'][:400] if len(ctx.violations) > before else 'statement satisfied on this input')
+        return 1 if len(ctx.violations) > before else 0
     if 'removal_links' in data:
         before = len(ctx.violations)
         removal_link_cases(ctx, 0, extra=[data['removal_links']])
